@@ -7,12 +7,13 @@ from rxv.engine import RULES
 import rxv.rules
 
 notes = json.load(open(os.path.join(V, "tools", "manifest_notes.json")))
+from rxv.engine import scope
 props = [json.loads(l) for l in open(os.path.join(V, "properties.jsonl"))]
 checks = []
 na = []
 for p in props:
     pid = p["id"]
-    rules = sorted(r.id for r in RULES.values() if pid in r.props)
+    rules = sorted(r.id for r in RULES.values() if set(r.props) & scope(pid))
     n = notes.get(pid, {})
     if not rules or n.get("not_applicable"):
         na.append({"property_id": pid, "reason": n.get("not_applicable") or "no structural clause of this property is checked yet"})
